@@ -120,9 +120,12 @@ where
 
                 if no_duplicates {
                     // There are no duplicate constant constraints. Create a new constraint
-                    // to follow the fulfillment of the variable domain constraints.
+                    // to follow the fulfillment of the variable domain constraints, and run it
+                    // right away: elements that are already bound (or the same variable listed
+                    // twice) are checked now instead of at the next unification, which may
+                    // never come.
                     let c = DistinctFd2Constraint::new(self.u.clone(), x, n);
-                    Ok(state.with_constraint(c))
+                    c.run(state)
                 } else {
                     // If there are duplicate constants in the array, then the constraint is
                     // already violated.
